@@ -12,11 +12,19 @@ B = z3.BoolVal
 resp_get = z3.Function('resp_get', U, z3.StringSort(), U)
 
 
+resp_get_u = z3.Function('resp_get_u', U, U, U)
+
+
 def resp_item(eng, st, recv, args, kwargs):
     k = args[0]
-    if not isinstance(k, str):
-        raise TypeError('response key')
-    return Opaque(resp_get(recv.term, z3.StringVal(k)), kind='respval', label=f'{recv.label}[{k!r}]')
+    if k == 'ContentLength':
+        v = z3.Function('resp_content_length', U, z3.IntSort())(recv.term)
+        st.assume(v >= 0)
+        return v
+    if isinstance(k, str):
+        return Opaque(resp_get(recv.term, z3.StringVal(k)), kind='respdict', label=f'{recv.label}[{k!r}]')
+    # computed member name (e.g. 'Checksum' + algorithm.upper())
+    return Opaque(resp_get_u(recv.term, eng.as_u_term(k, st)), kind='respdict', label=f'{recv.label}[<computed>]')
 
 
 def _map_view(st, v):
